@@ -15,6 +15,21 @@ use std::time::Duration;
 
 thread_local! {
     static TID: std::cell::Cell<u32> = const { std::cell::Cell::new(0) };
+    static NO_YIELD: std::cell::Cell<u32> = const { std::cell::Cell::new(0) };
+}
+
+/// Runs `f` without scheduling points (harness-level atomic sections such as "read the
+/// visible seqno and register the snapshot", which the documented protocol performs under the
+/// caller's own snapshot-tracker lock).
+pub fn no_yield<T>(f: impl FnOnce() -> T) -> T {
+    NO_YIELD.with(|c| c.set(c.get() + 1));
+    let r = f();
+    NO_YIELD.with(|c| c.set(c.get() - 1));
+    r
+}
+
+fn yields_disabled() -> bool {
+    NO_YIELD.with(std::cell::Cell::get) > 0
 }
 
 pub fn current_thread_id() -> u32 {
@@ -62,7 +77,18 @@ struct State {
 }
 
 static STATE: Mutex<Option<State>> = Mutex::new(None);
-static CV: Condvar = Condvar::new();
+const MAX_THREADS: usize = 32;
+static CVS: [Condvar; MAX_THREADS] = [const { Condvar::new() }; MAX_THREADS];
+
+fn wake(tid: u32) {
+    CVS[tid as usize % MAX_THREADS].notify_all();
+}
+
+fn wake_everyone() {
+    for c in &CVS {
+        c.notify_all();
+    }
+}
 static ACTIVE: AtomicBool = AtomicBool::new(false);
 static STEP_CLOCK: AtomicU64 = AtomicU64::new(0);
 
@@ -174,9 +200,9 @@ fn switch_and_wait(mut g: std::sync::MutexGuard<'_, Option<State>>, me: u32, nex
     if next == me {
         return;
     }
-    CV.notify_all();
+    wake(next);
     loop {
-        g = CV.wait(g).unwrap();
+        g = CVS[me as usize % MAX_THREADS].wait(g).unwrap();
         match g.as_ref() {
             Some(st) if st.current == me => return,
             Some(_) => {}
@@ -190,7 +216,7 @@ pub fn yield_point(site: &'static str) {
         return;
     }
     let me = current_thread_id();
-    if me == 0 {
+    if me == 0 || yields_disabled() {
         return;
     }
     let mut g = STATE.lock().unwrap();
@@ -243,7 +269,7 @@ pub fn blocked(site: &'static str) {
             st.active = false;
             st.current = 0;
             drop(g);
-            CV.notify_all();
+            wake_everyone();
             // park forever; the controller reports the deadlock and exits the process
             loop {
                 std::thread::sleep(Duration::from_secs(3600));
@@ -323,7 +349,7 @@ impl Controller {
                             Some(st) if st.deadlock.is_some() => return,
                             _ => {}
                         }
-                        g = CV.wait(g).unwrap();
+                        g = CVS[tid as usize % MAX_THREADS].wait(g).unwrap();
                     }
                 }
                 let result = std::panic::catch_unwind(std::panic::AssertUnwindSafe(f));
@@ -348,8 +374,15 @@ impl Controller {
                         st.current = next;
                     }
                 }
+                let next = g.as_ref().map_or(0, |st| st.current);
+                let dead = g.as_ref().is_some_and(|st| st.deadlock.is_some());
                 drop(g);
-                CV.notify_all();
+                if dead {
+                    wake_everyone();
+                } else {
+                    wake(next);
+                    wake(0);
+                }
                 if let Err(p) = result {
                     std::panic::resume_unwind(p);
                 }
@@ -369,13 +402,13 @@ impl Controller {
             let first = st.pick().unwrap_or(0);
             st.current = first;
         }
-        CV.notify_all();
+        wake_everyone();
         // wait for completion, with a wall-clock watchdog for unprobed blocking
         let mut last_step = 0u64;
         let mut idle_rounds = 0u32;
         loop {
             let g = STATE.lock().unwrap();
-            let (g, _timeout) = CV.wait_timeout(g, Duration::from_millis(500)).unwrap();
+            let (g, _timeout) = CVS[0].wait_timeout(g, Duration::from_millis(500)).unwrap();
             let st = g.as_ref().unwrap();
             if st.deadlock.is_some() {
                 break;
